@@ -416,6 +416,53 @@ pub fn run(cfg: &Cfg) -> Report {
             }
         }
     }
+    // long runs of replies owed to one chain (a `more` call answered hundreds of times), available in one
+    // burst, a few big chunks, or one frame per read: nothing may depend on how many replies were produced
+    // back to back
+    let nlong = if miri { 1 } else { cfg.n(40, 600) };
+    let mut rng = cfg.rng(6100 + cfg.shard as u64);
+    for k in 0..nlong {
+        if miri && cfg.shard != 0 {
+            break;
+        }
+        let n = rng.range(1, 3);
+        let mut kinds: Vec<Kind> = (0..n).map(|_| *rng.pick(&[Kind::Plain, Kind::Oneway, Kind::More])).collect();
+        let at = rng.below(n);
+        kinds[at] = Kind::More;
+        let mut replies = Vec::new();
+        for (i, kd) in kinds.iter().enumerate() {
+            let tag = 100_000 * (i as u32 + 1);
+            match kd {
+                Kind::Oneway => {}
+                Kind::Plain => replies.push(Rep { tag, is_error: rng.chance(1, 4), continues: None, pad: rng.below(8) }),
+                Kind::More => {
+                    let m = if i == at { if miri { 140 } else { *rng.pick(&[100usize, 127, 128, 129, 130, 200, 255, 256, 257, 300, 511, 512, 513, 700, 1025]) + rng.below(3) } } else { rng.below(4) };
+                    for j in 0..m {
+                        let pad = if rng.chance(1, 50) { 300 } else { rng.below(9) };
+                        replies.push(Rep { tag: tag + 1 + j as u32, is_error: false, continues: Some(true), pad });
+                    }
+                    let e = rng.below(3);
+                    replies.push(Rep { tag: tag + 99_999, is_error: e == 0, continues: if e == 1 { Some(false) } else { None }, pad: rng.below(8) });
+                }
+            }
+        }
+        let owed_len: usize = replies.iter().map(|r| r.bytes().len()).sum();
+        let ntrail = rng.below(3);
+        let trailing: Vec<Rep> = (0..ntrail).map(|j| Rep { tag: 9000 + j as u32, is_error: rng.chance(1, 3), continues: *rng.pick(&[None, Some(false), Some(true)]), pad: rng.below(5) }).collect();
+        let cuts = match k % 4 {
+            0 => vec![],
+            1 => random_cuts(&mut rng, owed_len, 4),
+            2 => {
+                let mut acc = 0;
+                replies.iter().map(|r| { acc += r.bytes().len(); acc }).filter(|c| *c < owed_len).collect()
+            }
+            _ => random_cuts(&mut rng, owed_len, 40),
+        };
+        let case = Case { kinds, replies, trailing, cuts, trailing_later: rng.chance(1, 2), cancel_next: k % 5 == 4, pendings: if k % 5 == 4 { 1 } else { 0 }, history: if rng.chance(1, 2) { 0 } else { rng.range(1, 7) as u8 } };
+        rep.count("long_reply_runs");
+        rep.max("max_replies_owed_to_one_chain", case.replies.len() as u64);
+        check(&case, &mut rep);
+    }
     rep.exhaustive = !miri;
     rep
 }
